@@ -16,6 +16,13 @@ two literals on one line (the second one carrying the escape or the reference), 
 references in macro values, escapes and `$(..)` in paths, single quotes for menu / mainmenu titles and paths).  A violation
 of this family is named by the smallest literal that still shows the same failure class (`trigger`).
 
+Environment dimension: the referenced variable MCKENV is, besides "set to plain text" (all programs), {unset, set to the
+empty string, set to text with a blank, set to text with both kinds of quote} (ENV_STATES) for the string-literal programs
+whose literal holds an environment reference -- every reference form `$(ENV)`, `${ENV}`, `$ENV`, as the whole literal
+(+ leading / trailing blank) and embedded next to every other feature (quick: `${ENV}` only for the embedded ones), in every
+value and comparison position -- and for the programs of the expr / symform / lexical families that mention MCKENV.
+Source paths are not generated under these states (the documents say nothing about unset / empty variables in paths).
+
 Every parse runs under a CPU-time limit; a parser that does not return is reported like a non-KconfigError exception.
 """
 
@@ -42,11 +49,14 @@ RULE = (
     "escaped other quote, $(MACRO), $(ENV), ${ENV}, $ENV, #} (quick: 6 of the 9) x {joined by '-', by one blank} x {leading, "
     "trailing blank} x 24 positions (prompts, titles, default values, comparison operands on either side, two literals on one "
     "line, set values, macro value, rsource path); violations of (g) carry the minimal literal of the same position that shows "
-    "the same failure class. distinct_nontrivial = distinct (accept/reject, structural dump) outcomes."
+    "the same failure class; (h) environment states of the referenced variable {unset, empty, text with a blank, text with quotes} x "
+    "every string-literal program of <=1 feature (+ leading / trailing blank) holding $(ENV) / ${ENV} / $ENV, and of 2 features holding one "
+    "(quick: ${ENV}; thorough: any form), in the 14 value / comparison positions x {dq, sq}, plus the expr / symform / lexical programs "
+    "that mention the variable. distinct_nontrivial = distinct (accept/reject, structural dump) outcomes."
 )
 ASSUMPTIONS = [
     "structural equality is judged on mck/dump.py's dump (node order, kinds, names, types, prompts, expr_str of every condition, help, parents, per-symbol properties)",
-    "environment for $-expansion is fixed: MCKENV=envval is set, MCKUNSET is unset",
+    "environment for $-expansion: MCKENV=envval is set, MCKUNSET is unset; programs with an `env` field override MCKENV for both parses (None = unset)",
     "string literals: backslash escapes and unescaped quotes of the other kind are part of the language in every string position (shipped fixtures and language.rst examples use them); macro / environment references only in values and expression operands; menu / mainmenu titles and source paths only double-quoted (language.rst)",
     "a parse that uses more than 2 s (string-literal programs) / 20 s (others) of CPU time is reported as non-termination (typical parse: 1..300 ms)",
 ]
@@ -489,6 +499,9 @@ def str_fragments(q: str) -> Dict[str, Tuple[str, str]]:
     }
 
 
+# states of the referenced environment variable besides the stock one (MCKENV=envval); None = not in the environment
+ENV_STATES: Dict[str, Optional[str]] = {"unset": None, "empty": "", "blank": "env val", "quotes": "e\"n'v"}
+ENV_FEATURES = ("envp", "envb", "envd")
 ESC_FEATURES = ("escq", "escbs", "esco")
 REF_FEATURES = ("macro", "envp", "envb", "envd")
 ALL_FEATURES = ("other", "escq", "escbs", "esco", "macro", "envp", "envb", "envd", "hash")
@@ -539,12 +552,15 @@ def strlit_label(seq, joiner: str, lead: bool, trail: bool) -> str:
     return (">".join(seq) if seq else "plain") + ("~" + "~".join(mods) if mods else "")
 
 
-def strlit_case(pos: str, qn: str, seq, joiner: str, lead: bool, trail: bool) -> Optional[Dict[str, Any]]:
-    """the program for one literal in one position, or None when that literal is not generated there"""
+def strlit_case(pos: str, qn: str, seq, joiner: str, lead: bool, trail: bool, env: Optional[str] = None) -> Optional[Dict[str, Any]]:
+    """the program for one literal in one position, or None when that literal is not generated there
+    (env: name of a non-stock state of the referenced environment variable, see ENV_STATES)"""
     quotes, feats, render = STR_POSITIONS[pos]
     q = QCHAR[qn]
     seq = list(seq)
     if q not in quotes or any(f not in feats for f in seq):
+        return None
+    if env is not None and (pos == "rsource_path" or not any(f in ENV_FEATURES for f in seq)):
         return None
     if len(seq) < 2:
         joiner = "-"
@@ -564,8 +580,14 @@ def strlit_case(pos: str, qn: str, seq, joiner: str, lead: bool, trail: bool) ->
         lit = f"{q}Kconfig.{src}{q}"
     else:
         files = {"Kconfig": mm(head + SAUX + render(lit))}
-    return {"family": "strlit", "construct": f"{pos}/{qn}/{strlit_label(seq, joiner, lead, trail)}", "lit": lit, "files": files,
-            "strlit": {"pos": pos, "q": qn, "seq": seq, "joiner": joiner, "lead": bool(lead), "trail": bool(trail)}}
+    out = {"family": "strlit", "construct": f"{pos}/{qn}/{strlit_label(seq, joiner, lead, trail)}", "lit": lit, "files": files,
+           "strlit": {"pos": pos, "q": qn, "seq": seq, "joiner": joiner, "lead": bool(lead), "trail": bool(trail)}}
+    if env is not None:
+        out["construct"] += "@env=" + env
+        out["strlit"]["env"] = env
+        out["envstate"] = env
+        out["env"] = {"MCKENV": ENV_STATES[env]}
+    return out
 
 
 def strlit_shapes(tier: str) -> List[Tuple[Tuple[str, ...], str, bool, bool]]:
@@ -596,6 +618,40 @@ def fam_strings(tier: str) -> Iterator[Dict[str, Any]]:
                 p = strlit_case(pos, QNAME[q], seq, joiner, lead, trail)
                 if p is not None:
                     yield p
+    # environment states of the referenced variable
+    eshapes = strlit_env_shapes(tier)
+    for env in ENV_STATES:
+        for pos, (quotes, _feats, _render) in STR_POSITIONS.items():
+            for q in quotes:
+                for seq, joiner, lead, trail in eshapes:
+                    p = strlit_case(pos, QNAME[q], seq, joiner, lead, trail, env)
+                    if p is not None:
+                        yield p
+
+
+def strlit_env_shapes(tier: str) -> List[Tuple[Tuple[str, ...], str, bool, bool]]:
+    """literals explored under every environment state: the reference alone (every form; + leading / trailing blank) and
+    next to one other feature (before / after it, joined by '-' and by a blank; quick: ${ENV} only)"""
+    out: List[Tuple[Tuple[str, ...], str, bool, bool]] = []
+    for f in ENV_FEATURES:
+        out += [((f,), "-", lead, trail) for lead, trail in ((False, False), (True, False), (False, True), (True, True))]
+    feats = QUICK_FEATURES if tier == "quick" else ALL_FEATURES
+    forms = ("envb",) if tier == "quick" else ENV_FEATURES
+    pairs: List[Tuple[str, ...]] = []
+    for e in forms:
+        for f in feats:
+            pairs += [(e, f), (f, e)]
+    for seq in dict.fromkeys(pairs):
+        out += [(seq, "-", False, False), (seq, " ", False, False)]
+    return out
+
+
+def with_env_states(progs: List[Dict[str, Any]]) -> Iterator[Dict[str, Any]]:
+    """the programs of the other families that mention the variable, once per non-stock environment state"""
+    for p in progs:
+        if p["family"] in ("expr", "symform", "lexical") and "MCKENV" in p.get("files", {}).get("Kconfig", ""):
+            for env, val in ENV_STATES.items():
+                yield dict(p, envstate=env, env={"MCKENV": val})
 
 
 def fam_fixtures(tier: str) -> Iterator[Dict[str, Any]]:
@@ -617,6 +673,7 @@ def items(tier: str, seed: int):
     out = []
     for fam in FAMILIES:
         out.extend(fam(tier))
+    out.extend(list(with_env_states(out)))
     # group small programs so that per-item overhead stays low; groups are strided (program i goes to group i mod n) so that
     # neighbouring programs -- which tend to share a slow or non-terminating construct -- land in different work items
     n = max(1, (len(out) + 7) // 8)
@@ -674,15 +731,19 @@ def _guarded(fn, timeout: float):
     return result
 
 
-def parse_with(path: str, version: int, timeout: float = PARSE_TIMEOUT_S):
+def parse_with(path: str, version: int, timeout: float = PARSE_TIMEOUT_S, env_over: Optional[Dict[str, Optional[str]]] = None):
     kl = impl.lib()
     c = impl.core()
     old = {}
-    env = dict(ENV)
+    env: Dict[str, Optional[str]] = dict(ENV)
     env["MCKDIR"] = os.path.dirname(path)
+    env.update(env_over or {})  # a program's own environment state (None = the variable is not in the environment)
     for k, v in env.items():
         old[k] = os.environ.get(k)
-        os.environ[k] = v
+        if v is None:
+            os.environ.pop(k, None)
+        else:
+            os.environ[k] = v
     os.environ.pop("MCKUNSET", None)
     cwd = os.getcwd()
     try:
@@ -740,8 +801,8 @@ PERT = {"bool": ["y", "n"], "int": ["7"], "hex": ["0x2A"], "string": ["pert"], "
 def _first_classes(p: Dict[str, Any], timeout: float) -> Tuple[tuple, ...]:
     """failure classes of one program as far as parsing and the structural dump go (used to minimise string literals)"""
     path = impl.put_program(p["files"])
-    s1, k1 = parse_with(path, 1, timeout)
-    s2, k2 = parse_with(path, 2, timeout)
+    s1, k1 = parse_with(path, 1, timeout, p.get("env"))
+    s2, k2 = parse_with(path, 2, timeout, p.get("env"))
     out = []
     if s1 != "ok" or s2 != "ok":
         if s1 == "other_exception":
@@ -760,9 +821,10 @@ def _first_classes(p: Dict[str, Any], timeout: float) -> Tuple[tuple, ...]:
 _CLASS_MEMO: Dict[str, Tuple[tuple, ...]] = {}
 
 
-def _strlit_has_class(pos: str, qn: str, shape: tuple, cls: tuple) -> Optional[tuple]:
-    """the normalised shape if that literal is generated at this position and shows failure class `cls`, else None"""
-    q = strlit_case(pos, qn, *shape)
+def _strlit_has_class(pos: str, qn: str, shape: tuple, cls: tuple, env: Optional[str] = None) -> Optional[tuple]:
+    """the normalised shape if that literal is generated at this position (under the same environment state) and shows
+    failure class `cls`, else None"""
+    q = strlit_case(pos, qn, *shape, env)
     if q is None:
         return None
     key = q["construct"]
@@ -781,7 +843,7 @@ def _strlit_trigger(p: Dict[str, Any], cls: Optional[tuple]) -> str:
     shows the SAME failure class -- first every single component of the literal on its own (one feature; a leading / trailing
     blank around the plain word), else greedy: drop one feature / one blank at a time, left to right, while the class remains"""
     d = p["strlit"]
-    pos, qn = d["pos"], d["q"]
+    pos, qn, env = d["pos"], d["q"], d.get("env")
     cur = (tuple(d["seq"]), d["joiner"], d["lead"], d["trail"])
     if cls is None:
         return strlit_label(*cur)
@@ -790,7 +852,7 @@ def _strlit_trigger(p: Dict[str, Any], cls: Optional[tuple]) -> str:
     singles += [((), "-", False, True)] if cur[3] else []
     if len(cur[0]) + int(cur[2]) + int(cur[3]) > 1:
         for cand in singles:
-            got = _strlit_has_class(pos, qn, cand, cls)
+            got = _strlit_has_class(pos, qn, cand, cls, env)
             if got is not None:
                 return strlit_label(*got)
     progress = True
@@ -805,7 +867,7 @@ def _strlit_trigger(p: Dict[str, Any], cls: Optional[tuple]) -> str:
         if trail:
             cands.append((seq, joiner, lead, False))
         for cand in cands:
-            got = _strlit_has_class(pos, qn, cand, cls)
+            got = _strlit_has_class(pos, qn, cand, cls, env)
             if got is not None:
                 cur = got
                 progress = True
@@ -822,16 +884,20 @@ def check_one(p: Dict[str, Any], r: common.Result) -> None:
     case = {k: v for k, v in p.items()}
     timeout = PARSE_TIMEOUT_STRLIT_S if fam == "strlit" else PARSE_TIMEOUT_S
 
+    envsig = {"env": p["envstate"]} if p.get("envstate") else {}
+
     def sb(cls: Optional[tuple]) -> Dict[str, Any]:
         if fam == "strlit":
-            # position + quote kind + the minimal literal that still shows this failure class
-            return {"family": fam, "construct": f"{p['strlit']['pos']}/{p['strlit']['q']}", "trigger": _strlit_trigger(p, cls)}
-        return {"family": fam, "construct": construct if fam != "structure" else fam}
+            # position + quote kind + the minimal literal that still shows this failure class (under the same environment state)
+            return {"family": fam, "construct": f"{p['strlit']['pos']}/{p['strlit']['q']}", "trigger": _strlit_trigger(p, cls), **envsig}
+        return {"family": fam, "construct": construct if fam != "structure" else fam, **envsig}
 
-    s1, k1 = parse_with(path, 1, timeout)
-    s2, k2 = parse_with(path, 2, timeout)
+    s1, k1 = parse_with(path, 1, timeout, p.get("env"))
+    s2, k2 = parse_with(path, 2, timeout, p.get("env"))
     r.evals += 1
-    label = f"[{fam}/{construct}{' expr=' + p['expr'] if 'expr' in p else ''}{' literal=' + p['lit'] if 'lit' in p else ''}]"
+    if p.get("envstate"):
+        r.count("programs_under_non_stock_environment")
+    label = f"[{fam}/{construct}{' MCKENV=' + repr(p['env']['MCKENV']) if p.get('envstate') else ''}{' expr=' + p['expr'] if 'expr' in p else ''}{' literal=' + p['lit'] if 'lit' in p else ''}]"
     if fam == "negative":
         # sources outside the documented language: the statement does not say what must happen; recorded, never alarmed
         r.outcome(("negative", construct, s1, s2))
